@@ -485,6 +485,38 @@ Definition ng_mv (g : ng) : str -> option key := match_values (ng_re g) (ng_name
 Definition ng_accepts (g : ng) (path : str) : bool := accepts (ng_re g) path.
 
 (* ------------------------------------------------------------------------------------------ *)
+(* Shape of the compiled part list (used by the back-reference theorem)                        *)
+(* ------------------------------------------------------------------------------------------ *)
+
+(* no named group inside *)
+Fixpoint nogrp (r : re) : bool :=
+  match r with
+  | REps | RStr _ | RAny | RCls _ _ | RRef _ => true
+  | RCat a b | RAlt a b => nogrp a && nogrp b
+  | RStar a | RPlus a | ROpt a | RNcg a => nogrp a
+  | RGrp _ _ => false
+  end.
+
+(* The shape of what the compiler emits: named groups only at the top level of the part list,
+   each name defined at most once. *)
+Definition part_flat (r : re) : bool := match r with RGrp _ a => nogrp a | _ => nogrp r end.
+
+Fixpoint grp_names (ps : list re) : list str :=
+  match ps with
+  | [] => []
+  | RGrp n _ :: rs => n :: grp_names rs
+  | _ :: rs => grp_names rs
+  end.
+
+Fixpoint nodup_str (l : list str) : bool :=
+  match l with [] => true | x :: r => negb (mem_str x r) && nodup_str r end.
+
+Definition parts_ok (ps : list re) : bool := forallb part_flat ps && nodup_str (grp_names ps).
+
+Definition conv_parts_ok (p : str) (subs : subs_t) : bool :=
+  match conv_regex p subs with COk ps => parts_ok ps | CErr _ => true end.
+
+(* ------------------------------------------------------------------------------------------ *)
 (* Reference semantics, from the documentation                                                 *)
 (* ------------------------------------------------------------------------------------------ *)
 
